@@ -327,6 +327,10 @@ fn p_c08(d: &str, e: &str) -> String {
     if src(&[d, d]) != Ok(sd.clone()) {
         return "violated: from_sources([d,d]) != from_str(d)".into();
     }
+    // idempotence for more than two copies (`sources_idem_k`)
+    if src(&[d, d, d]) != Ok(sd.clone()) || src(&[d, d, d, d, d]) != Ok(sd.clone()) {
+        return "violated: from_sources of 3 or 5 copies of d != from_str(d)".into();
+    }
     let opt = json_shape::verif::as_optional(sd.clone());
     if src(&[d, "null"]) != Ok(opt.clone()) || src(&["null", d]) != Ok(opt) {
         return "violated: null absorption".into();
